@@ -53,6 +53,8 @@ def generate(r, tier):
         "p_fault": 0.0,
     }
     scn = {"property": ID, "engine": engine, "world": world, "actors": []}
+    if engine == "loop" and r.random() < 0.5:
+        scn["history"] = [gen.gen_ticket(r, "h.%d" % i, units, dict(profile, p_nested=0.0)) for i in range(r.randint(1, 2))]
     nact = 1 if engine == "sync" else r.randint(1, 3)
     for i in range(nact):
         name = "a%d" % i
@@ -104,6 +106,12 @@ def _execute(scn):
     async def main():
         run.enter_actor("main")
         loop = asyncio.get_running_loop()
+        for td in scn.get("history") or []:
+            # the spawning context has already executed contracted code ("in the current thread/task" must still hold)
+            if run.world.is_async(td):
+                await run.acall(td)
+            else:
+                run.call(td)
         tasks = [loop.create_task(child(a), name=a["name"], context=contextvars.copy_context()) for a in actors]
         await asyncio.gather(*tasks)
 
